@@ -77,6 +77,9 @@ func (b bufSpec) String() string {
 type chanPlan struct {
 	writes     []int
 	pauses     []time.Duration // before write i (len = len(writes)+1: the last one precedes the close)
+	dual       bool            // a second writer task writes writes2 on the same connection at the same time
+	writes2    []int
+	pauses2    []time.Duration
 	total      int
 	bufs       []bufSpec
 	deadline   time.Duration // 0 = reader sets no deadline
